@@ -613,6 +613,7 @@ impl World {
                 }
             }
             Op::Search(_) | Op::Timeline(_) | Op::SearchVec { .. } => crate::reads::exec_read(self, i, op),
+            Op::Wal(_) => (false, true, None),
         }
     }
 
